@@ -36,3 +36,173 @@ package memoization
 //@   trusted key text: op, the hex UUID of the options text and the hex UUIDs of the arguments, joined by ':'
 //@   pure
 //@   requires lo != nil
+
+// ---- Lookups through the memoizer (C19, C20) --------------------------------------------------
+// Hit: the cached slice is replayed in order. Miss: the wrapped graph's stream is forwarded in
+// order and, when it is complete, exactly what was forwarded is cached. An error of the wrapped
+// graph is returned and nothing is cached then. The channel is closed exactly once.
+//@ props C19 C20
+//@ func (g *graphMemoizer) Objects
+//@   opt go-sequential
+//@   opt strings opaque
+//@   requires g != nil && g.g != nil && g.memO != nil && g.#lock_mu == 0 && wfNode(s) && p != nil && lo != nil && ctx != nil && objs != nil && objs.#closed == 0
+//@   modifies contents(g.memO), g.#lock_mu, $driverFailed, objs.#out, objs.#closed
+//@   ensures[lock-released] g.#lock_mu == 0
+//@   ensures[closed-once] objs.#closed == 1
+//@   ensures[driver-error-surfaces@C20] $driverFailed && !old($driverFailed) ==> result != nil
+//@   ensures[errors-are-not-cached] result != nil ==> (forall x string :: {has(g.memO, x)} has(g.memO, x) == old(has(g.memO, x))) && (forall x string :: {g.memO[x]} g.memO[x] == old(g.memO[x]))
+//@   atcall Lock assert[caches-exactly-what-was-forwarded] len(mobjs) == objs.#len - old(objs.#len) && (forall j int :: {mobjs[j]} 0 <= j && j < len(mobjs) ==> mobjs[j] == objs.#out[old(objs.#len) + j] && mobjs[j] == deref(addr(c)).#out[j]) && deref(addr(c)).#rcvd == deref(addr(c)).#len && deref(addr(c)).#closed == 1
+//@   loop 0 invariant[replays-in-order] 0 <= $i && $i <= len(v) && objs.#len == old(objs.#len) + $i && (forall j int :: {v[j]} 0 <= j && j < $i ==> objs.#out[old(objs.#len) + j] == v[j])
+//@   loop 0 invariant[state] g.#lock_mu == 0 && objs.#closed == 0 && $driverFailed == old($driverFailed)
+//@   loop 0 invariant[cache-untouched] (forall x string :: {has(g.memO, x)} has(g.memO, x) == old(has(g.memO, x))) && (forall x string :: {g.memO[x]} g.memO[x] == old(g.memO[x]))
+//@   loop 1 invariant[forwards-in-order] g.#lock_mu == 0 && objs.#closed == 0 && deref(addr(c)) != nil && deref(addr(c)) != objs && deref(addr(c)).#closed == 1 && deref(addr(c)).#len == atentry(deref(addr(c)).#len) && 0 <= deref(addr(c)).#rcvd && deref(addr(c)).#rcvd <= deref(addr(c)).#len && len(mobjs) == deref(addr(c)).#rcvd && len(mobjs) == objs.#len - old(objs.#len) && (forall j int :: {mobjs[j]} 0 <= j && j < len(mobjs) ==> mobjs[j] == objs.#out[old(objs.#len) + j] && mobjs[j] == deref(addr(c)).#out[j]) && $driverFailed == atentry($driverFailed) && (forall x string :: {has(g.memO, x)} has(g.memO, x) == old(has(g.memO, x))) && (forall x string :: {g.memO[x]} g.memO[x] == old(g.memO[x]))
+
+//@ func (g *graphMemoizer) Subjects
+//@   opt go-sequential
+//@   opt strings opaque
+//@   requires g != nil && g.g != nil && g.memN != nil && g.#lock_mu == 0 && wfObj(o) && p != nil && lo != nil && ctx != nil && subs != nil && subs.#closed == 0
+//@   modifies contents(g.memN), g.#lock_mu, $driverFailed, subs.#out, subs.#closed
+//@   ensures[lock-released] g.#lock_mu == 0
+//@   ensures[closed-once] subs.#closed == 1
+//@   ensures[driver-error-surfaces@C20] $driverFailed && !old($driverFailed) ==> result != nil
+//@   ensures[errors-are-not-cached] result != nil ==> (forall x string :: {has(g.memN, x)} has(g.memN, x) == old(has(g.memN, x))) && (forall x string :: {g.memN[x]} g.memN[x] == old(g.memN[x]))
+//@   atcall Lock assert[caches-exactly-what-was-forwarded] len(msubs) == subs.#len - old(subs.#len) && (forall j int :: {msubs[j]} 0 <= j && j < len(msubs) ==> msubs[j] == subs.#out[old(subs.#len) + j] && msubs[j] == deref(addr(c)).#out[j]) && deref(addr(c)).#rcvd == deref(addr(c)).#len && deref(addr(c)).#closed == 1
+//@   loop 0 invariant[replays-in-order] 0 <= $i && $i <= len(v) && subs.#len == old(subs.#len) + $i && (forall j int :: {v[j]} 0 <= j && j < $i ==> subs.#out[old(subs.#len) + j] == v[j])
+//@   loop 0 invariant[state] g.#lock_mu == 0 && subs.#closed == 0 && $driverFailed == old($driverFailed)
+//@   loop 0 invariant[cache-untouched] (forall x string :: {has(g.memN, x)} has(g.memN, x) == old(has(g.memN, x))) && (forall x string :: {g.memN[x]} g.memN[x] == old(g.memN[x]))
+//@   loop 1 invariant[forwards-in-order] g.#lock_mu == 0 && subs.#closed == 0 && deref(addr(c)) != nil && deref(addr(c)) != subs && deref(addr(c)).#closed == 1 && deref(addr(c)).#len == atentry(deref(addr(c)).#len) && 0 <= deref(addr(c)).#rcvd && deref(addr(c)).#rcvd <= deref(addr(c)).#len && len(msubs) == deref(addr(c)).#rcvd && len(msubs) == subs.#len - old(subs.#len) && (forall j int :: {msubs[j]} 0 <= j && j < len(msubs) ==> msubs[j] == subs.#out[old(subs.#len) + j] && msubs[j] == deref(addr(c)).#out[j]) && $driverFailed == atentry($driverFailed) && (forall x string :: {has(g.memN, x)} has(g.memN, x) == old(has(g.memN, x))) && (forall x string :: {g.memN[x]} g.memN[x] == old(g.memN[x]))
+
+//@ func (g *graphMemoizer) PredicatesForSubject
+//@   opt go-sequential
+//@   opt strings opaque
+//@   requires g != nil && g.g != nil && g.memP != nil && g.#lock_mu == 0 && wfNode(s) && lo != nil && ctx != nil && prds != nil && prds.#closed == 0
+//@   modifies contents(g.memP), g.#lock_mu, $driverFailed, prds.#out, prds.#closed
+//@   ensures[lock-released] g.#lock_mu == 0
+//@   ensures[closed-once] prds.#closed == 1
+//@   ensures[driver-error-surfaces@C20] $driverFailed && !old($driverFailed) ==> result != nil
+//@   ensures[errors-are-not-cached] result != nil ==> (forall x string :: {has(g.memP, x)} has(g.memP, x) == old(has(g.memP, x))) && (forall x string :: {g.memP[x]} g.memP[x] == old(g.memP[x]))
+//@   atcall Lock assert[caches-exactly-what-was-forwarded] len(mpreds) == prds.#len - old(prds.#len) && (forall j int :: {mpreds[j]} 0 <= j && j < len(mpreds) ==> mpreds[j] == prds.#out[old(prds.#len) + j] && mpreds[j] == deref(addr(c)).#out[j]) && deref(addr(c)).#rcvd == deref(addr(c)).#len && deref(addr(c)).#closed == 1
+//@   loop 0 invariant[replays-in-order] 0 <= $i && $i <= len(v) && prds.#len == old(prds.#len) + $i && (forall j int :: {v[j]} 0 <= j && j < $i ==> prds.#out[old(prds.#len) + j] == v[j])
+//@   loop 0 invariant[state] g.#lock_mu == 0 && prds.#closed == 0 && $driverFailed == old($driverFailed)
+//@   loop 0 invariant[cache-untouched] (forall x string :: {has(g.memP, x)} has(g.memP, x) == old(has(g.memP, x))) && (forall x string :: {g.memP[x]} g.memP[x] == old(g.memP[x]))
+//@   loop 1 invariant[forwards-in-order] g.#lock_mu == 0 && prds.#closed == 0 && deref(addr(c)) != nil && deref(addr(c)) != prds && deref(addr(c)).#closed == 1 && deref(addr(c)).#len == atentry(deref(addr(c)).#len) && 0 <= deref(addr(c)).#rcvd && deref(addr(c)).#rcvd <= deref(addr(c)).#len && len(mpreds) == deref(addr(c)).#rcvd && len(mpreds) == prds.#len - old(prds.#len) && (forall j int :: {mpreds[j]} 0 <= j && j < len(mpreds) ==> mpreds[j] == prds.#out[old(prds.#len) + j] && mpreds[j] == deref(addr(c)).#out[j]) && $driverFailed == atentry($driverFailed) && (forall x string :: {has(g.memP, x)} has(g.memP, x) == old(has(g.memP, x))) && (forall x string :: {g.memP[x]} g.memP[x] == old(g.memP[x]))
+
+//@ func (g *graphMemoizer) PredicatesForObject
+//@   opt go-sequential
+//@   opt strings opaque
+//@   requires g != nil && g.g != nil && g.memP != nil && g.#lock_mu == 0 && wfObj(o) && lo != nil && ctx != nil && prds != nil && prds.#closed == 0
+//@   modifies contents(g.memP), g.#lock_mu, $driverFailed, prds.#out, prds.#closed
+//@   ensures[lock-released] g.#lock_mu == 0
+//@   ensures[closed-once] prds.#closed == 1
+//@   ensures[driver-error-surfaces@C20] $driverFailed && !old($driverFailed) ==> result != nil
+//@   ensures[errors-are-not-cached] result != nil ==> (forall x string :: {has(g.memP, x)} has(g.memP, x) == old(has(g.memP, x))) && (forall x string :: {g.memP[x]} g.memP[x] == old(g.memP[x]))
+//@   atcall Lock assert[caches-exactly-what-was-forwarded] len(mpreds) == prds.#len - old(prds.#len) && (forall j int :: {mpreds[j]} 0 <= j && j < len(mpreds) ==> mpreds[j] == prds.#out[old(prds.#len) + j] && mpreds[j] == deref(addr(c)).#out[j]) && deref(addr(c)).#rcvd == deref(addr(c)).#len && deref(addr(c)).#closed == 1
+//@   loop 0 invariant[replays-in-order] 0 <= $i && $i <= len(v) && prds.#len == old(prds.#len) + $i && (forall j int :: {v[j]} 0 <= j && j < $i ==> prds.#out[old(prds.#len) + j] == v[j])
+//@   loop 0 invariant[state] g.#lock_mu == 0 && prds.#closed == 0 && $driverFailed == old($driverFailed)
+//@   loop 0 invariant[cache-untouched] (forall x string :: {has(g.memP, x)} has(g.memP, x) == old(has(g.memP, x))) && (forall x string :: {g.memP[x]} g.memP[x] == old(g.memP[x]))
+//@   loop 1 invariant[forwards-in-order] g.#lock_mu == 0 && prds.#closed == 0 && deref(addr(c)) != nil && deref(addr(c)) != prds && deref(addr(c)).#closed == 1 && deref(addr(c)).#len == atentry(deref(addr(c)).#len) && 0 <= deref(addr(c)).#rcvd && deref(addr(c)).#rcvd <= deref(addr(c)).#len && len(mpreds) == deref(addr(c)).#rcvd && len(mpreds) == prds.#len - old(prds.#len) && (forall j int :: {mpreds[j]} 0 <= j && j < len(mpreds) ==> mpreds[j] == prds.#out[old(prds.#len) + j] && mpreds[j] == deref(addr(c)).#out[j]) && $driverFailed == atentry($driverFailed) && (forall x string :: {has(g.memP, x)} has(g.memP, x) == old(has(g.memP, x))) && (forall x string :: {g.memP[x]} g.memP[x] == old(g.memP[x]))
+
+//@ func (g *graphMemoizer) PredicatesForSubjectAndObject
+//@   opt go-sequential
+//@   opt strings opaque
+//@   requires g != nil && g.g != nil && g.memP != nil && g.#lock_mu == 0 && wfNode(s) && wfObj(o) && lo != nil && ctx != nil && prds != nil && prds.#closed == 0
+//@   modifies contents(g.memP), g.#lock_mu, $driverFailed, prds.#out, prds.#closed
+//@   ensures[lock-released] g.#lock_mu == 0
+//@   ensures[closed-once] prds.#closed == 1
+//@   ensures[driver-error-surfaces@C20] $driverFailed && !old($driverFailed) ==> result != nil
+//@   ensures[errors-are-not-cached] result != nil ==> (forall x string :: {has(g.memP, x)} has(g.memP, x) == old(has(g.memP, x))) && (forall x string :: {g.memP[x]} g.memP[x] == old(g.memP[x]))
+//@   atcall Lock assert[caches-exactly-what-was-forwarded] len(mpreds) == prds.#len - old(prds.#len) && (forall j int :: {mpreds[j]} 0 <= j && j < len(mpreds) ==> mpreds[j] == prds.#out[old(prds.#len) + j] && mpreds[j] == deref(addr(c)).#out[j]) && deref(addr(c)).#rcvd == deref(addr(c)).#len && deref(addr(c)).#closed == 1
+//@   loop 0 invariant[replays-in-order] 0 <= $i && $i <= len(v) && prds.#len == old(prds.#len) + $i && (forall j int :: {v[j]} 0 <= j && j < $i ==> prds.#out[old(prds.#len) + j] == v[j])
+//@   loop 0 invariant[state] g.#lock_mu == 0 && prds.#closed == 0 && $driverFailed == old($driverFailed)
+//@   loop 0 invariant[cache-untouched] (forall x string :: {has(g.memP, x)} has(g.memP, x) == old(has(g.memP, x))) && (forall x string :: {g.memP[x]} g.memP[x] == old(g.memP[x]))
+//@   loop 1 invariant[forwards-in-order] g.#lock_mu == 0 && prds.#closed == 0 && deref(addr(c)) != nil && deref(addr(c)) != prds && deref(addr(c)).#closed == 1 && deref(addr(c)).#len == atentry(deref(addr(c)).#len) && 0 <= deref(addr(c)).#rcvd && deref(addr(c)).#rcvd <= deref(addr(c)).#len && len(mpreds) == deref(addr(c)).#rcvd && len(mpreds) == prds.#len - old(prds.#len) && (forall j int :: {mpreds[j]} 0 <= j && j < len(mpreds) ==> mpreds[j] == prds.#out[old(prds.#len) + j] && mpreds[j] == deref(addr(c)).#out[j]) && $driverFailed == atentry($driverFailed) && (forall x string :: {has(g.memP, x)} has(g.memP, x) == old(has(g.memP, x))) && (forall x string :: {g.memP[x]} g.memP[x] == old(g.memP[x]))
+
+//@ func (g *graphMemoizer) TriplesForSubject
+//@   opt go-sequential
+//@   opt strings opaque
+//@   requires g != nil && g.g != nil && g.memT != nil && g.#lock_mu == 0 && wfNode(s) && lo != nil && ctx != nil && trpls != nil && trpls.#closed == 0
+//@   modifies contents(g.memT), g.#lock_mu, $driverFailed, trpls.#out, trpls.#closed
+//@   ensures[lock-released] g.#lock_mu == 0
+//@   ensures[closed-once] trpls.#closed == 1
+//@   ensures[driver-error-surfaces@C20] $driverFailed && !old($driverFailed) ==> result != nil
+//@   ensures[errors-are-not-cached] result != nil ==> (forall x string :: {has(g.memT, x)} has(g.memT, x) == old(has(g.memT, x))) && (forall x string :: {g.memT[x]} g.memT[x] == old(g.memT[x]))
+//@   atcall Lock assert[caches-exactly-what-was-forwarded] len(mts) == trpls.#len - old(trpls.#len) && (forall j int :: {mts[j]} 0 <= j && j < len(mts) ==> mts[j] == trpls.#out[old(trpls.#len) + j] && mts[j] == deref(addr(c)).#out[j]) && deref(addr(c)).#rcvd == deref(addr(c)).#len && deref(addr(c)).#closed == 1
+//@   loop 0 invariant[replays-in-order] 0 <= $i && $i <= len(v) && trpls.#len == old(trpls.#len) + $i && (forall j int :: {v[j]} 0 <= j && j < $i ==> trpls.#out[old(trpls.#len) + j] == v[j])
+//@   loop 0 invariant[state] g.#lock_mu == 0 && trpls.#closed == 0 && $driverFailed == old($driverFailed)
+//@   loop 0 invariant[cache-untouched] (forall x string :: {has(g.memT, x)} has(g.memT, x) == old(has(g.memT, x))) && (forall x string :: {g.memT[x]} g.memT[x] == old(g.memT[x]))
+//@   loop 1 invariant[forwards-in-order] g.#lock_mu == 0 && trpls.#closed == 0 && deref(addr(c)) != nil && deref(addr(c)) != trpls && deref(addr(c)).#closed == 1 && deref(addr(c)).#len == atentry(deref(addr(c)).#len) && 0 <= deref(addr(c)).#rcvd && deref(addr(c)).#rcvd <= deref(addr(c)).#len && len(mts) == deref(addr(c)).#rcvd && len(mts) == trpls.#len - old(trpls.#len) && (forall j int :: {mts[j]} 0 <= j && j < len(mts) ==> mts[j] == trpls.#out[old(trpls.#len) + j] && mts[j] == deref(addr(c)).#out[j]) && $driverFailed == atentry($driverFailed) && (forall x string :: {has(g.memT, x)} has(g.memT, x) == old(has(g.memT, x))) && (forall x string :: {g.memT[x]} g.memT[x] == old(g.memT[x]))
+
+//@ func (g *graphMemoizer) TriplesForPredicate
+//@   opt go-sequential
+//@   opt strings opaque
+//@   requires g != nil && g.g != nil && g.memT != nil && g.#lock_mu == 0 && p != nil && lo != nil && ctx != nil && trpls != nil && trpls.#closed == 0
+//@   modifies contents(g.memT), g.#lock_mu, $driverFailed, trpls.#out, trpls.#closed
+//@   ensures[lock-released] g.#lock_mu == 0
+//@   ensures[closed-once] trpls.#closed == 1
+//@   ensures[driver-error-surfaces@C20] $driverFailed && !old($driverFailed) ==> result != nil
+//@   ensures[errors-are-not-cached] result != nil ==> (forall x string :: {has(g.memT, x)} has(g.memT, x) == old(has(g.memT, x))) && (forall x string :: {g.memT[x]} g.memT[x] == old(g.memT[x]))
+//@   atcall Lock assert[caches-exactly-what-was-forwarded] len(mts) == trpls.#len - old(trpls.#len) && (forall j int :: {mts[j]} 0 <= j && j < len(mts) ==> mts[j] == trpls.#out[old(trpls.#len) + j] && mts[j] == deref(addr(c)).#out[j]) && deref(addr(c)).#rcvd == deref(addr(c)).#len && deref(addr(c)).#closed == 1
+//@   loop 0 invariant[replays-in-order] 0 <= $i && $i <= len(v) && trpls.#len == old(trpls.#len) + $i && (forall j int :: {v[j]} 0 <= j && j < $i ==> trpls.#out[old(trpls.#len) + j] == v[j])
+//@   loop 0 invariant[state] g.#lock_mu == 0 && trpls.#closed == 0 && $driverFailed == old($driverFailed)
+//@   loop 0 invariant[cache-untouched] (forall x string :: {has(g.memT, x)} has(g.memT, x) == old(has(g.memT, x))) && (forall x string :: {g.memT[x]} g.memT[x] == old(g.memT[x]))
+//@   loop 1 invariant[forwards-in-order] g.#lock_mu == 0 && trpls.#closed == 0 && deref(addr(c)) != nil && deref(addr(c)) != trpls && deref(addr(c)).#closed == 1 && deref(addr(c)).#len == atentry(deref(addr(c)).#len) && 0 <= deref(addr(c)).#rcvd && deref(addr(c)).#rcvd <= deref(addr(c)).#len && len(mts) == deref(addr(c)).#rcvd && len(mts) == trpls.#len - old(trpls.#len) && (forall j int :: {mts[j]} 0 <= j && j < len(mts) ==> mts[j] == trpls.#out[old(trpls.#len) + j] && mts[j] == deref(addr(c)).#out[j]) && $driverFailed == atentry($driverFailed) && (forall x string :: {has(g.memT, x)} has(g.memT, x) == old(has(g.memT, x))) && (forall x string :: {g.memT[x]} g.memT[x] == old(g.memT[x]))
+
+//@ func (g *graphMemoizer) TriplesForObject
+//@   opt go-sequential
+//@   opt strings opaque
+//@   requires g != nil && g.g != nil && g.memT != nil && g.#lock_mu == 0 && wfObj(o) && lo != nil && ctx != nil && trpls != nil && trpls.#closed == 0
+//@   modifies contents(g.memT), g.#lock_mu, $driverFailed, trpls.#out, trpls.#closed
+//@   ensures[lock-released] g.#lock_mu == 0
+//@   ensures[closed-once] trpls.#closed == 1
+//@   ensures[driver-error-surfaces@C20] $driverFailed && !old($driverFailed) ==> result != nil
+//@   ensures[errors-are-not-cached] result != nil ==> (forall x string :: {has(g.memT, x)} has(g.memT, x) == old(has(g.memT, x))) && (forall x string :: {g.memT[x]} g.memT[x] == old(g.memT[x]))
+//@   atcall Lock assert[caches-exactly-what-was-forwarded] len(mts) == trpls.#len - old(trpls.#len) && (forall j int :: {mts[j]} 0 <= j && j < len(mts) ==> mts[j] == trpls.#out[old(trpls.#len) + j] && mts[j] == deref(addr(c)).#out[j]) && deref(addr(c)).#rcvd == deref(addr(c)).#len && deref(addr(c)).#closed == 1
+//@   loop 0 invariant[replays-in-order] 0 <= $i && $i <= len(v) && trpls.#len == old(trpls.#len) + $i && (forall j int :: {v[j]} 0 <= j && j < $i ==> trpls.#out[old(trpls.#len) + j] == v[j])
+//@   loop 0 invariant[state] g.#lock_mu == 0 && trpls.#closed == 0 && $driverFailed == old($driverFailed)
+//@   loop 0 invariant[cache-untouched] (forall x string :: {has(g.memT, x)} has(g.memT, x) == old(has(g.memT, x))) && (forall x string :: {g.memT[x]} g.memT[x] == old(g.memT[x]))
+//@   loop 1 invariant[forwards-in-order] g.#lock_mu == 0 && trpls.#closed == 0 && deref(addr(c)) != nil && deref(addr(c)) != trpls && deref(addr(c)).#closed == 1 && deref(addr(c)).#len == atentry(deref(addr(c)).#len) && 0 <= deref(addr(c)).#rcvd && deref(addr(c)).#rcvd <= deref(addr(c)).#len && len(mts) == deref(addr(c)).#rcvd && len(mts) == trpls.#len - old(trpls.#len) && (forall j int :: {mts[j]} 0 <= j && j < len(mts) ==> mts[j] == trpls.#out[old(trpls.#len) + j] && mts[j] == deref(addr(c)).#out[j]) && $driverFailed == atentry($driverFailed) && (forall x string :: {has(g.memT, x)} has(g.memT, x) == old(has(g.memT, x))) && (forall x string :: {g.memT[x]} g.memT[x] == old(g.memT[x]))
+
+//@ func (g *graphMemoizer) TriplesForSubjectAndPredicate
+//@   opt go-sequential
+//@   opt strings opaque
+//@   requires g != nil && g.g != nil && g.memT != nil && g.#lock_mu == 0 && wfNode(s) && p != nil && lo != nil && ctx != nil && trpls != nil && trpls.#closed == 0
+//@   modifies contents(g.memT), g.#lock_mu, $driverFailed, trpls.#out, trpls.#closed
+//@   ensures[lock-released] g.#lock_mu == 0
+//@   ensures[closed-once] trpls.#closed == 1
+//@   ensures[driver-error-surfaces@C20] $driverFailed && !old($driverFailed) ==> result != nil
+//@   ensures[errors-are-not-cached] result != nil ==> (forall x string :: {has(g.memT, x)} has(g.memT, x) == old(has(g.memT, x))) && (forall x string :: {g.memT[x]} g.memT[x] == old(g.memT[x]))
+//@   atcall Lock assert[caches-exactly-what-was-forwarded] len(mts) == trpls.#len - old(trpls.#len) && (forall j int :: {mts[j]} 0 <= j && j < len(mts) ==> mts[j] == trpls.#out[old(trpls.#len) + j] && mts[j] == deref(addr(c)).#out[j]) && deref(addr(c)).#rcvd == deref(addr(c)).#len && deref(addr(c)).#closed == 1
+//@   loop 0 invariant[replays-in-order] 0 <= $i && $i <= len(v) && trpls.#len == old(trpls.#len) + $i && (forall j int :: {v[j]} 0 <= j && j < $i ==> trpls.#out[old(trpls.#len) + j] == v[j])
+//@   loop 0 invariant[state] g.#lock_mu == 0 && trpls.#closed == 0 && $driverFailed == old($driverFailed)
+//@   loop 0 invariant[cache-untouched] (forall x string :: {has(g.memT, x)} has(g.memT, x) == old(has(g.memT, x))) && (forall x string :: {g.memT[x]} g.memT[x] == old(g.memT[x]))
+//@   loop 1 invariant[forwards-in-order] g.#lock_mu == 0 && trpls.#closed == 0 && deref(addr(c)) != nil && deref(addr(c)) != trpls && deref(addr(c)).#closed == 1 && deref(addr(c)).#len == atentry(deref(addr(c)).#len) && 0 <= deref(addr(c)).#rcvd && deref(addr(c)).#rcvd <= deref(addr(c)).#len && len(mts) == deref(addr(c)).#rcvd && len(mts) == trpls.#len - old(trpls.#len) && (forall j int :: {mts[j]} 0 <= j && j < len(mts) ==> mts[j] == trpls.#out[old(trpls.#len) + j] && mts[j] == deref(addr(c)).#out[j]) && $driverFailed == atentry($driverFailed) && (forall x string :: {has(g.memT, x)} has(g.memT, x) == old(has(g.memT, x))) && (forall x string :: {g.memT[x]} g.memT[x] == old(g.memT[x]))
+
+//@ func (g *graphMemoizer) TriplesForPredicateAndObject
+//@   opt go-sequential
+//@   opt strings opaque
+//@   requires g != nil && g.g != nil && g.memT != nil && g.#lock_mu == 0 && p != nil && wfObj(o) && lo != nil && ctx != nil && trpls != nil && trpls.#closed == 0
+//@   modifies contents(g.memT), g.#lock_mu, $driverFailed, trpls.#out, trpls.#closed
+//@   ensures[lock-released] g.#lock_mu == 0
+//@   ensures[closed-once] trpls.#closed == 1
+//@   ensures[driver-error-surfaces@C20] $driverFailed && !old($driverFailed) ==> result != nil
+//@   ensures[errors-are-not-cached] result != nil ==> (forall x string :: {has(g.memT, x)} has(g.memT, x) == old(has(g.memT, x))) && (forall x string :: {g.memT[x]} g.memT[x] == old(g.memT[x]))
+//@   atcall Lock assert[caches-exactly-what-was-forwarded] len(mts) == trpls.#len - old(trpls.#len) && (forall j int :: {mts[j]} 0 <= j && j < len(mts) ==> mts[j] == trpls.#out[old(trpls.#len) + j] && mts[j] == deref(addr(c)).#out[j]) && deref(addr(c)).#rcvd == deref(addr(c)).#len && deref(addr(c)).#closed == 1
+//@   loop 0 invariant[replays-in-order] 0 <= $i && $i <= len(v) && trpls.#len == old(trpls.#len) + $i && (forall j int :: {v[j]} 0 <= j && j < $i ==> trpls.#out[old(trpls.#len) + j] == v[j])
+//@   loop 0 invariant[state] g.#lock_mu == 0 && trpls.#closed == 0 && $driverFailed == old($driverFailed)
+//@   loop 0 invariant[cache-untouched] (forall x string :: {has(g.memT, x)} has(g.memT, x) == old(has(g.memT, x))) && (forall x string :: {g.memT[x]} g.memT[x] == old(g.memT[x]))
+//@   loop 1 invariant[forwards-in-order] g.#lock_mu == 0 && trpls.#closed == 0 && deref(addr(c)) != nil && deref(addr(c)) != trpls && deref(addr(c)).#closed == 1 && deref(addr(c)).#len == atentry(deref(addr(c)).#len) && 0 <= deref(addr(c)).#rcvd && deref(addr(c)).#rcvd <= deref(addr(c)).#len && len(mts) == deref(addr(c)).#rcvd && len(mts) == trpls.#len - old(trpls.#len) && (forall j int :: {mts[j]} 0 <= j && j < len(mts) ==> mts[j] == trpls.#out[old(trpls.#len) + j] && mts[j] == deref(addr(c)).#out[j]) && $driverFailed == atentry($driverFailed) && (forall x string :: {has(g.memT, x)} has(g.memT, x) == old(has(g.memT, x))) && (forall x string :: {g.memT[x]} g.memT[x] == old(g.memT[x]))
+
+//@ func (g *graphMemoizer) Triples
+//@   opt go-sequential
+//@   opt strings opaque
+//@   requires g != nil && g.g != nil && g.memT != nil && g.#lock_mu == 0 && true && lo != nil && ctx != nil && trpls != nil && trpls.#closed == 0
+//@   modifies contents(g.memT), g.#lock_mu, $driverFailed, trpls.#out, trpls.#closed
+//@   ensures[lock-released] g.#lock_mu == 0
+//@   ensures[closed-once] trpls.#closed == 1
+//@   ensures[driver-error-surfaces@C20] $driverFailed && !old($driverFailed) ==> result != nil
+//@   ensures[errors-are-not-cached] result != nil ==> (forall x string :: {has(g.memT, x)} has(g.memT, x) == old(has(g.memT, x))) && (forall x string :: {g.memT[x]} g.memT[x] == old(g.memT[x]))
+//@   atcall Lock assert[caches-exactly-what-was-forwarded] len(mts) == trpls.#len - old(trpls.#len) && (forall j int :: {mts[j]} 0 <= j && j < len(mts) ==> mts[j] == trpls.#out[old(trpls.#len) + j] && mts[j] == deref(addr(c)).#out[j]) && deref(addr(c)).#rcvd == deref(addr(c)).#len && deref(addr(c)).#closed == 1
+//@   loop 0 invariant[replays-in-order] 0 <= $i && $i <= len(v) && trpls.#len == old(trpls.#len) + $i && (forall j int :: {v[j]} 0 <= j && j < $i ==> trpls.#out[old(trpls.#len) + j] == v[j])
+//@   loop 0 invariant[state] g.#lock_mu == 0 && trpls.#closed == 0 && $driverFailed == old($driverFailed)
+//@   loop 0 invariant[cache-untouched] (forall x string :: {has(g.memT, x)} has(g.memT, x) == old(has(g.memT, x))) && (forall x string :: {g.memT[x]} g.memT[x] == old(g.memT[x]))
+//@   loop 1 invariant[forwards-in-order] g.#lock_mu == 0 && trpls.#closed == 0 && deref(addr(c)) != nil && deref(addr(c)) != trpls && deref(addr(c)).#closed == 1 && deref(addr(c)).#len == atentry(deref(addr(c)).#len) && 0 <= deref(addr(c)).#rcvd && deref(addr(c)).#rcvd <= deref(addr(c)).#len && len(mts) == deref(addr(c)).#rcvd && len(mts) == trpls.#len - old(trpls.#len) && (forall j int :: {mts[j]} 0 <= j && j < len(mts) ==> mts[j] == trpls.#out[old(trpls.#len) + j] && mts[j] == deref(addr(c)).#out[j]) && $driverFailed == atentry($driverFailed) && (forall x string :: {has(g.memT, x)} has(g.memT, x) == old(has(g.memT, x))) && (forall x string :: {g.memT[x]} g.memT[x] == old(g.memT[x]))
